@@ -134,6 +134,23 @@ func init() {
 					m := ast.NewHSMSControlMessage(arg)
 					c.Ops(1)
 					checkControl(c, fmt.Sprintf("NewHSMSControlMessage(%x)", hdr), m, hdr)
+					// the message stays what it is when the caller reuses its buffers afterwards:
+					// the constructor argument, and the receive buffer a decoded copy came from
+					if ref.STypeName(hdr[4], hdr[5]) != "undefined" && i%7 == 0 {
+						buf := append(make([]byte, 0, 32), m.ToBytes()...)
+						d, ok := hsms.Parse(buf)
+						for k := range arg {
+							arg[k] ^= 0xFF
+						}
+						full := buf[:cap(buf)]
+						for k := range full {
+							full[k] ^= 0xA5
+						}
+						checkControl(c, fmt.Sprintf("NewHSMSControlMessage(%x) after the argument slice was overwritten", hdr), m, hdr)
+						if ok {
+							checkControl(c, fmt.Sprintf("hsms.Parse of the bytes of %x after the receive buffer was overwritten", hdr), d, hdr)
+						}
+					}
 					c.Case(0, true, "raw:"+ref.STypeName(hdr[4], hdr[5]))
 				}})
 			// all session ids x all constructors
